@@ -172,12 +172,20 @@ fn run_writer(s: &WriterScenario, path: &std::path::Path, pattern: u64, limit: u
                     w.push((i as u64).wrapping_mul(0x9E37_79B9_7F4A_7C15) ^ pattern);
                 }
             });
+            // The limit stays in force: whatever is called next on the same writer, a close() that returns
+            // Ok claims a complete file.
             if pushed.is_err() {
-                return "push: panic".to_string();
+                return match w.close() {
+                    Ok(()) => "push: panic; close: Ok".to_string(),
+                    Err(_) => "push: panic; close: Err".to_string(),
+                };
             }
             match w.close() {
                 Ok(()) => "success".to_string(),
-                Err(_) => "close: Err".to_string(),
+                Err(_) => match w.close() {
+                    Ok(()) => "close: Err; close: Ok".to_string(),
+                    Err(_) => "close: Err; close: Err".to_string(),
+                },
             }
         }
         WriterScenario::Raw { buf_len, pushes, width } => {
@@ -191,12 +199,20 @@ fn run_writer(s: &WriterScenario, path: &std::path::Path, pattern: u64, limit: u
                     unsafe { w.push_int((i as u64).wrapping_mul(0x9E37_79B9_7F4A_7C15) ^ pattern, width) };
                 }
             });
+            // The limit stays in force: whatever is called next on the same writer, a close() that returns
+            // Ok claims a complete file.
             if pushed.is_err() {
-                return "push: panic".to_string();
+                return match w.close() {
+                    Ok(()) => "push: panic; close: Ok".to_string(),
+                    Err(_) => "push: panic; close: Err".to_string(),
+                };
             }
             match w.close() {
                 Ok(()) => "success".to_string(),
-                Err(_) => "close: Err".to_string(),
+                Err(_) => match w.close() {
+                    Ok(()) => "close: Err; close: Ok".to_string(),
+                    Err(_) => "close: Err; close: Err".to_string(),
+                },
             }
         }
     });
@@ -220,8 +236,8 @@ fn check_writer(ctx: &mut Ctx, s: &WriterScenario, limit: u64) {
     ctx.note("writer_outcomes", &outcome);
     let complete = file == reference;
     let ok = match outcome.as_str() {
-        "success" => complete,
-        "new: Err" | "push: panic" | "close: Err" => true,
+        "success" | "push: panic; close: Ok" | "close: Err; close: Ok" => complete,
+        "new: Err" | "push: panic; close: Err" | "close: Err; close: Err" => true,
         _ => false,
     };
     if (limit as usize) < reference.len() {
